@@ -5,14 +5,14 @@ import Thanos.Lemmas.Downsample
 -/
 namespace Thanos.Downsample
 
-theorem min_cw_ne (r lastT t : Int) (hr : 0 < r) (hl : 0 ≤ lastT) (ht : 0 ≤ t) :
-    min (currentWindow t r) lastT ≠ -1 := by
-  have := currentWindow_nonneg ht hr
+theorem min_cw_ne (r lastT t : Int) (hr : 0 < r) (hl : minInt64 < lastT) (ht : minInt64 < t) :
+    min (currentWindow t r) lastT ≠ minInt64 := by
+  have := currentWindow_ge (t := t) hr
   simp only [Int.min_def]; split <;> omega
 
 /-- Σ of the emitted window sums = the running window's sum + Σ of the remaining values -/
-theorem batchEmit_sum (r lastT : Int) (hr : 0 < r) (hl : 0 ≤ lastT) :
-    ∀ (data : List Pt) (nextT : Int) (a : Agg), 0 < a.total → nextT ≠ -1 → (∀ p ∈ data, 0 ≤ p.1) →
+theorem batchEmit_sum (r lastT : Int) (hr : 0 < r) (hl : minInt64 < lastT) :
+    ∀ (data : List Pt) (nextT : Int) (a : Agg), 0 < a.total → nextT ≠ minInt64 → (∀ p ∈ data, minInt64 < p.1) →
       ((batchEmit r lastT data nextT a).map (fun e => e.2.sum)).sum = a.sum + (data.map (·.2)).sum := by
   intro data
   induction data with
@@ -20,8 +20,8 @@ theorem batchEmit_sum (r lastT : Int) (hr : 0 < r) (hl : 0 ≤ lastT) :
   | cons p rest ih =>
     intro nextT a ha hn h0
     obtain ⟨t, v⟩ := p
-    have ht : 0 ≤ t := h0 (t, v) (by simp)
-    have h0' : ∀ p ∈ rest, 0 ≤ p.1 := fun p hp => h0 p (List.mem_cons_of_mem _ hp)
+    have ht : minInt64 < t := h0 (t, v) (by simp)
+    have h0' : ∀ p ∈ rest, minInt64 < p.1 := fun p hp => h0 p (List.mem_cons_of_mem _ hp)
     unfold batchEmit
     split
     · have := ih (min (currentWindow t r) lastT) (a.reset.add v) (by simp [Agg.add]) (min_cw_ne r lastT t hr hl ht) h0'
@@ -33,8 +33,8 @@ theorem batchEmit_sum (r lastT : Int) (hr : 0 < r) (hl : 0 ≤ lastT) :
       simp [Agg.add] <;> omega
 
 /-- the same for the window counts -/
-theorem batchEmit_count (r lastT : Int) (hr : 0 < r) (hl : 0 ≤ lastT) :
-    ∀ (data : List Pt) (nextT : Int) (a : Agg), 0 < a.total → nextT ≠ -1 → (∀ p ∈ data, 0 ≤ p.1) →
+theorem batchEmit_count (r lastT : Int) (hr : 0 < r) (hl : minInt64 < lastT) :
+    ∀ (data : List Pt) (nextT : Int) (a : Agg), 0 < a.total → nextT ≠ minInt64 → (∀ p ∈ data, minInt64 < p.1) →
       ((batchEmit r lastT data nextT a).map (fun e => (e.2.count : Int))).sum = a.count + data.length := by
   intro data
   induction data with
@@ -42,8 +42,8 @@ theorem batchEmit_count (r lastT : Int) (hr : 0 < r) (hl : 0 ≤ lastT) :
   | cons p rest ih =>
     intro nextT a ha hn h0
     obtain ⟨t, v⟩ := p
-    have ht : 0 ≤ t := h0 (t, v) (by simp)
-    have h0' : ∀ p ∈ rest, 0 ≤ p.1 := fun p hp => h0 p (List.mem_cons_of_mem _ hp)
+    have ht : minInt64 < t := h0 (t, v) (by simp)
+    have h0' : ∀ p ∈ rest, minInt64 < p.1 := fun p hp => h0 p (List.mem_cons_of_mem _ hp)
     unfold batchEmit
     split
     · have := ih (min (currentWindow t r) lastT) (a.reset.add v) (by simp [Agg.add]) (min_cw_ne r lastT t hr hl ht) h0'
@@ -61,8 +61,8 @@ theorem max_assoc3 (a b c : Int) : max (max a b) c = max a (max b c) := by
   simp only [Int.max_def]; repeat' split <;> omega
 
 /-- the least of the emitted window minima = the least of the running minimum and the remaining values -/
-theorem batchEmit_min (r lastT : Int) (hr : 0 < r) (hl : 0 ≤ lastT) :
-    ∀ (data : List Pt) (nextT : Int) (a : Agg) (M : Int), 0 < a.total → nextT ≠ -1 → (∀ p ∈ data, 0 ≤ p.1) →
+theorem batchEmit_min (r lastT : Int) (hr : 0 < r) (hl : minInt64 < lastT) :
+    ∀ (data : List Pt) (nextT : Int) (a : Agg) (M : Int), 0 < a.total → nextT ≠ minInt64 → (∀ p ∈ data, minInt64 < p.1) →
       (∀ p ∈ data, p.2 ≤ maxFloat) →
       ((batchEmit r lastT data nextT a).map (fun e => e.2.min)).foldl min M = (data.map (·.2)).foldl min (min M a.min) := by
   intro data
@@ -71,9 +71,9 @@ theorem batchEmit_min (r lastT : Int) (hr : 0 < r) (hl : 0 ≤ lastT) :
   | cons p rest ih =>
     intro nextT a M ha hn h0 hf
     obtain ⟨t, v⟩ := p
-    have ht : 0 ≤ t := h0 (t, v) (by simp)
+    have ht : minInt64 < t := h0 (t, v) (by simp)
     have hv : v ≤ maxFloat := hf (t, v) (by simp)
-    have h0' : ∀ p ∈ rest, 0 ≤ p.1 := fun p hp => h0 p (List.mem_cons_of_mem _ hp)
+    have h0' : ∀ p ∈ rest, minInt64 < p.1 := fun p hp => h0 p (List.mem_cons_of_mem _ hp)
     have hf' : ∀ p ∈ rest, p.2 ≤ maxFloat := fun p hp => hf p (List.mem_cons_of_mem _ hp)
     unfold batchEmit
     split
@@ -96,8 +96,8 @@ theorem batchEmit_min (r lastT : Int) (hr : 0 < r) (hl : 0 ≤ lastT) :
       simp only [Agg.add, Int.min_def]
       split <;> split <;> omega
 
-theorem batchEmit_max (r lastT : Int) (hr : 0 < r) (hl : 0 ≤ lastT) :
-    ∀ (data : List Pt) (nextT : Int) (a : Agg) (M : Int), 0 < a.total → nextT ≠ -1 → (∀ p ∈ data, 0 ≤ p.1) →
+theorem batchEmit_max (r lastT : Int) (hr : 0 < r) (hl : minInt64 < lastT) :
+    ∀ (data : List Pt) (nextT : Int) (a : Agg) (M : Int), 0 < a.total → nextT ≠ minInt64 → (∀ p ∈ data, minInt64 < p.1) →
       (∀ p ∈ data, -maxFloat ≤ p.2) →
       ((batchEmit r lastT data nextT a).map (fun e => e.2.max)).foldl max M = (data.map (·.2)).foldl max (max M a.max) := by
   intro data
@@ -106,9 +106,9 @@ theorem batchEmit_max (r lastT : Int) (hr : 0 < r) (hl : 0 ≤ lastT) :
   | cons p rest ih =>
     intro nextT a M ha hn h0 hf
     obtain ⟨t, v⟩ := p
-    have ht : 0 ≤ t := h0 (t, v) (by simp)
+    have ht : minInt64 < t := h0 (t, v) (by simp)
     have hv : -maxFloat ≤ v := hf (t, v) (by simp)
-    have h0' : ∀ p ∈ rest, 0 ≤ p.1 := fun p hp => h0 p (List.mem_cons_of_mem _ hp)
+    have h0' : ∀ p ∈ rest, minInt64 < p.1 := fun p hp => h0 p (List.mem_cons_of_mem _ hp)
     have hf' : ∀ p ∈ rest, -maxFloat ≤ p.2 := fun p hp => hf p (List.mem_cons_of_mem _ hp)
     unfold batchEmit
     split
@@ -133,8 +133,8 @@ theorem batchEmit_max (r lastT : Int) (hr : 0 < r) (hl : 0 ≤ lastT) :
 
 /-- the emitted timestamps strictly increase and stay between the pending timestamp and `lastT` -/
 theorem batchEmit_ts (r lastT : Int) (hr : 0 < r) :
-    ∀ (data : List Pt) (nextT : Int) (a : Agg), 0 < a.total → 0 ≤ nextT → nextT ≤ lastT →
-      (∀ p ∈ data, 0 ≤ p.1 ∧ p.1 ≤ lastT) →
+    ∀ (data : List Pt) (nextT : Int) (a : Agg), 0 < a.total → minInt64 < nextT → nextT ≤ lastT →
+      (∀ p ∈ data, minInt64 < p.1 ∧ p.1 ≤ lastT) →
       ((batchEmit r lastT data nextT a).map (·.1)).Pairwise (· < ·) ∧
       ∀ t ∈ (batchEmit r lastT data nextT a).map (·.1), nextT ≤ t ∧ t ≤ lastT := by
   intro data
@@ -145,15 +145,15 @@ theorem batchEmit_ts (r lastT : Int) (hr : 0 < r) :
     obtain ⟨t, v⟩ := p
     have ht := hb (t, v) (by simp)
     simp only at ht
-    have hb' : ∀ p ∈ rest, 0 ≤ p.1 ∧ p.1 ≤ lastT := fun p hp => hb p (List.mem_cons_of_mem _ hp)
+    have hb' : ∀ p ∈ rest, minInt64 < p.1 ∧ p.1 ≤ lastT := fun p hp => hb p (List.mem_cons_of_mem _ hp)
     unfold batchEmit
     split
     · rename_i hgt
-      have hcw := currentWindow_ge ht.1 hr
+      have hcw := currentWindow_ge (t := t) hr
       have hn' : t ≤ min (currentWindow t r) lastT := by simp only [Int.min_def]; split <;> omega
       have hle' : min (currentWindow t r) lastT ≤ lastT := by simp only [Int.min_def]; split <;> omega
       obtain ⟨h1, h2⟩ := ih (min (currentWindow t r) lastT) (a.reset.add v) (by simp [Agg.add]) (by omega) hle' hb'
-      have hne : nextT ≠ -1 := by omega
+      have hne : nextT ≠ minInt64 := by omega
       simp only [hne, ne_eq, not_false_eq_true, if_true, List.map_append, List.map_cons, List.map_nil,
         List.singleton_append]
       refine ⟨List.pairwise_cons.mpr ⟨fun x hx => ?_, h1⟩, fun x hx => ?_⟩
@@ -226,10 +226,10 @@ theorem batchEmit_ne_nil (r lastT : Int) : ∀ (data : List Pt) (nextT : Int) (a
     · exact ih _ _ (by simp [Agg.add])
 
 /-- **What one call of downsampleBatch conserves** (no ordering of the samples is needed for
-    the totals; timestamps ≥ 0, the last sample carries the largest timestamp). -/
+    the totals; timestamps above MinInt64, the last sample carries the largest timestamp). -/
 theorem downsampleBatch_totals (r : Int) (hr : 0 < r) (data : List Pt) (t0 v0 lastT lv : Int)
     (hhead : data.head? = some (t0, v0)) (hlast : data.getLast? = some (lastT, lv))
-    (hb : ∀ p ∈ data, 0 ≤ p.1 ∧ p.1 ≤ lastT) (hfin : ∀ p ∈ data, Finite p.2) :
+    (hb : ∀ p ∈ data, minInt64 < p.1 ∧ p.1 ≤ lastT) (hfin : ∀ p ∈ data, Finite p.2) :
     ∃ out nt, downsampleBatch data r = some (out, nt) ∧ out ≠ [] ∧
       (out.map (fun e => e.2.sum)).sum = (data.map (·.2)).sum ∧
       (out.map (fun e => (e.2.count : Int))).sum = data.length ∧
@@ -243,18 +243,18 @@ theorem downsampleBatch_totals (r : Int) (hr : 0 < r) (data : List Pt) (t0 v0 la
     subst hhead
     have ht0 := hb (t0, v0) (by simp)
     simp only at ht0
-    have hl0 : 0 ≤ lastT := Int.le_trans ht0.1 ht0.2
-    have hgt : t0 > -1 := by omega
-    have hb' : ∀ p ∈ rest, 0 ≤ p.1 ∧ p.1 ≤ lastT := fun p hp => hb p (List.mem_cons_of_mem _ hp)
-    have h0' : ∀ p ∈ rest, 0 ≤ p.1 := fun p hp => (hb' p hp).1
+    have hl0 : minInt64 < lastT := by omega
+    have hgt : t0 > minInt64 := ht0.1
+    have hb' : ∀ p ∈ rest, minInt64 < p.1 ∧ p.1 ≤ lastT := fun p hp => hb p (List.mem_cons_of_mem _ hp)
+    have h0' : ∀ p ∈ rest, minInt64 < p.1 := fun p hp => (hb' p hp).1
     have hv0 := hfin (t0, v0) (by simp)
-    have hcw := currentWindow_ge ht0.1 hr
+    have hcw := currentWindow_ge (t := t0) hr
     have hn0 : t0 ≤ min (currentWindow t0 r) lastT := by simp only [Int.min_def]; split <;> omega
     have hle0 : min (currentWindow t0 r) lastT ≤ lastT := by simp only [Int.min_def]; split <;> omega
     have ha : 0 < (Agg.zero.reset.add v0).total := by simp [Agg.add]
-    have hne : min (currentWindow t0 r) lastT ≠ -1 := min_cw_ne r lastT t0 hr hl0 ht0.1
+    have hne : min (currentWindow t0 r) lastT ≠ minInt64 := min_cw_ne r lastT t0 hr hl0 ht0.1
     refine ⟨batchEmit r lastT rest (min (currentWindow t0 r) lastT) (Agg.zero.reset.add v0),
-      batchNextT r lastT ((t0, v0) :: rest) (-1), ?_, ?_, ?_, ?_, ?_, ?_, ?_⟩
+      batchNextT r lastT ((t0, v0) :: rest) minInt64, ?_, ?_, ?_, ?_, ?_, ?_, ?_⟩
     · simp only [downsampleBatch, hlast, batchEmit, hgt, if_true, ne_eq, not_true_eq_false, if_false,
         List.nil_append]
     · exact batchEmit_ne_nil r lastT _ _ _ ha
